@@ -1179,12 +1179,136 @@ func c06RunPrograms(env *mc.Env) {
 }
 
 // ---------------------------------------------------------------------------
+// nested access: sema.GetDescendantReferenceType (the type the checker gives a
+// member / element / removed value reached through a reference) over every
+// container shape up to two wrappers deep around a reference leaf
+// `auth(inner) &Int`, for every outer and inner authorization. Wherever the
+// leaf reference ends up in the result, its authorization must be met by every
+// holder of the outer authorization and by every holder of the inner one.
+
+var c06Wrappers = []string{"opt", "var", "const", "dict"}
+
+func c06Shapes() [][]string {
+	shapes := [][]string{{}}
+	for _, a := range c06Wrappers {
+		shapes = append(shapes, []string{a})
+		for _, b := range c06Wrappers {
+			shapes = append(shapes, []string{a, b})
+		}
+	}
+	return shapes
+}
+
+func c06ShapeName(shape []string) string {
+	s := "ref"
+	for i := len(shape) - 1; i >= 0; i-- {
+		s = shape[i] + "<" + s + ">"
+	}
+	return s
+}
+
+func c06Wrap(shape []string, leaf sema.Type) sema.Type {
+	t := leaf
+	for i := len(shape) - 1; i >= 0; i-- {
+		switch shape[i] {
+		case "opt":
+			t = sema.NewOptionalType(nil, t)
+		case "var":
+			t = sema.NewVariableSizedType(nil, t)
+		case "const":
+			t = sema.NewConstantSizedType(nil, t, 1)
+		case "dict":
+			t = sema.NewDictionaryType(nil, sema.StringType, t)
+		}
+	}
+	return t
+}
+
+// leaf references (to Int) anywhere inside t
+func c06LeafRefs(t sema.Type, out *[]*sema.ReferenceType) {
+	switch t := t.(type) {
+	case *sema.ReferenceType:
+		if t.Type == sema.IntType {
+			*out = append(*out, t)
+			return
+		}
+		c06LeafRefs(t.Type, out)
+	case *sema.OptionalType:
+		c06LeafRefs(t.Type, out)
+	case *sema.VariableSizedType:
+		c06LeafRefs(t.Type, out)
+	case *sema.ConstantSizedType:
+		c06LeafRefs(t.Type, out)
+	case *sema.DictionaryType:
+		c06LeafRefs(t.KeyType, out)
+		c06LeafRefs(t.ValueType, out)
+	}
+}
+
+func c06JudgeNested(r *c06Real, shape []string, outer, inner c06Auth) (sig, detail, class string) {
+	leaf := sema.NewReferenceType(nil, r.access(inner), sema.IntType)
+	desc := c06Wrap(shape, leaf)
+	name := c06ShapeName(shape)
+	var got sema.Type
+	if p, v, _ := mc.Guard(func() {
+		got = sema.GetDescendantReferenceType(nil, desc, sema.UnauthorizedAccess, r.access(outer))
+	}); p {
+		return "NestedAccess|shape=" + name + "|panic", fmt.Sprint(v), ""
+	}
+	var leaves []*sema.ReferenceType
+	c06LeafRefs(got, &leaves)
+	if len(leaves) != 1 {
+		return "NestedAccess|shape=" + name + "|leaf-reference-lost", fmt.Sprintf("%s through auth%s: %s", desc, outer, got), ""
+	}
+	res, ok := r.model(leaves[0].Authorization)
+	if !ok {
+		return "NestedAccess|shape=" + name + "|unreadable-result", got.String(), ""
+	}
+	if !c06Entails(outer, res, r.n) || !c06Entails(inner, res, r.n) {
+		return fmt.Sprintf("NestedAccess|shape=%s|outer=%s|inner=%s|result=%s|grants-more", name, outer.kindName(), inner.kindName(), res.kindName()),
+			fmt.Sprintf("a value of type %s reached through a reference with authorization %s is given the type %s: the inner reference keeps %s, which a holder of %s need not have",
+				desc, outer, got, res, outer), ""
+	}
+	return "", "", fmt.Sprintf("nested:%s:%s,%s->%s", name, outer.kindName(), inner.kindName(), res.kindName())
+}
+
+func c06RunNested(env *mc.Env, n int) {
+	r := c06NewReal(n)
+	auths := c06Auths(n, false)
+	shapes := c06Shapes()
+	env.R.Set("nested_shapes", int64(len(shapes)))
+	mc.ParallelFor(env, len(shapes), func(i int) {
+		shape := shapes[i]
+		classes := c06Classes{}
+		for _, outer := range auths {
+			for _, inner := range auths {
+				o, in := outer, inner
+				env.R.Eval()
+				sig, detail, class := c06JudgeNested(r, shape, outer, inner)
+				if sig != "" {
+					env.R.Violation(sig, c06Case{Layer: "nested", N: n, A: &o, B: &in, Sources: shape}, detail)
+					continue
+				}
+				classes[class]++
+				if len(inner.Members) > 0 && !c06Entails(outer, inner, n) {
+					env.R.Nontrivial("nested|" + c06ShapeName(shape) + "|" + outer.String() + "|" + inner.String())
+				}
+			}
+		}
+		classes.flush(env, "shape "+c06ShapeName(shape))
+	})
+}
+
+// ---------------------------------------------------------------------------
 
 func runC06(env *mc.Env) {
 	n := mc.Pick(env, 3, 4)
 	// --sub api|include|program runs one layer only (debugging; no evidence is written)
 	if env.Sub == "" || env.Sub == "api" {
 		c06RunAPI(env, n)
+	}
+	if env.Sub == "" || env.Sub == "nested" {
+		c06RunNested(env, n)
 	}
 	if env.Sub == "" || env.Sub == "include" {
 		c06RunInclude(env)
@@ -1214,6 +1338,9 @@ func replayC06(env *mc.Env, raw json.RawMessage) (bool, string) {
 	case "image":
 		sig, detail, _ := c06JudgeImage(r, sema.NewEntitlementMapAccess(r.mapType(*c.Map)), *c.Map, *c.A)
 		return sig != "", detail
+	case "nested":
+		sig, detail, _ := c06JudgeNested(r, c.Sources, *c.A, *c.B)
+		return sig != "", detail
 	case "include":
 		sig, detail, _ := c06JudgeInclude(c.Sources[0], *c.Map)
 		return sig != "", detail
@@ -1235,7 +1362,7 @@ func init() {
 		ID: "C06",
 		Rule: "API layer: over a universe of 3 (quick) / 4 (thorough) entitlements, every authorization (unauthorized, self, every non-empty conjunction and disjunction in every insertion order): " +
 			"all ordered pairs for PermitsAccess, reference subtyping and IntersectAccess; all relations R ⊆ U×U x identity flag x all authorizations for Image; " +
-			"4096 contracts with include chains over three mappings resolved by the checker; program layer: for each mapping over 3 entitlements with at most 2 relations (quick: 92) / all 1024 (thorough) a contract with an access(mapping M) field, " +
+			"GetDescendantReferenceType over 21 container shapes (optional / variable / constant array / dictionary, up to two deep) around a reference leaf x all outer x inner authorizations; 4096 contracts with include chains over three mappings resolved by the checker; program layer: for each mapping over 3 entitlements with at most 2 relations (quick: 92) / all 1024 (thorough) a contract with an access(mapping M) field, " +
 			"and for each pair a <: b of spellable authorizations a script that upcasts auth(a) &S to auth(b) &S and probes every requirement shape through both (checker), then runs it in both engines; " +
 			"oracle = possible-worlds set semantics; non-trivial = mixed conjunction/disjunction pairs, disjunctive inputs of Image/IntersectAccess, include chains of length 2, proper upcasts",
 		Assumptions: []string{
